@@ -358,7 +358,8 @@ def jobs(tier):
 BOUNDS = dict(
     quick='individual likelihoods/posteriors: 1 output x 9 time multisets x 4 '
           'error models, 2 outputs on a quarter of the grid pairs, 16 '
-          'fixed-parameter subsets; hierarchical: all compositions of <= 2 '
+          'fixed-parameter subsets plus 5 with a later error parameter '
+          'fixed and an earlier one free; hierarchical: all compositions of <= 2 '
           'sub-models with total dimension 2, a third of the 3-unit '
           'compositions, covariate and fixed-parameter samples, 2 individuals',
     thorough='time multisets up to length 3 over 4 values, all 2-output grid '
